@@ -21,4 +21,30 @@ func explains(k KnownFinding, v *Violation) bool {
 	return p(v)
 }
 
-var explainPredicates = map[string]func(v *Violation) bool{}
+var explainPredicates = map[string]func(v *Violation) bool{
+	// The decoded didChange cannot tell "no range" from "range 0:0-0:0"
+	// (protocol.TextDocumentContentChangeEvent.Range is not a pointer) and the
+	// server takes the latter for a whole-document replacement.  The mismatch is
+	// this defect iff the notification contained a change with an explicit range
+	// 0:0-0:0 and the server's text is exactly what the reference buffer gives
+	// when such changes replace the whole text.
+	"c01-zero-range-is-full-replacement": func(v *Violation) bool {
+		before, ok1 := v.Witness["before"].(string)
+		server, ok2 := v.Witness["server"].(string)
+		edits, ok3 := v.Witness["edits"].([]Edit)
+		if !ok1 || !ok2 || !ok3 {
+			return false
+		}
+		b := BufOf(before)
+		zero := false
+		for _, e := range edits {
+			if e.HasRange && e.L1 == 0 && e.C1 == 0 && e.L2 == 0 && e.C2 == 0 {
+				zero = true
+				b = BufOf(e.Text)
+				continue
+			}
+			b = b.Apply(e.HasRange, e.L1, e.C1, e.L2, e.C2, e.Text)
+		}
+		return zero && b.String() == server
+	},
+}
